@@ -364,3 +364,26 @@ func vStub_sync_RWMutex_Lock(m *sync.RWMutex)    { vLocksHeld++ }
 func vStub_sync_RWMutex_Unlock(m *sync.RWMutex)  { vLocksHeld-- }
 func vStub_sync_RWMutex_RLock(m *sync.RWMutex)   { vLocksHeld++ }
 func vStub_sync_RWMutex_RUnlock(m *sync.RWMutex) { vLocksHeld-- }
+
+// TryLock / TryRLock can fail whenever another client holds the lock: both outcomes are explored.
+func vStub_sync_Mutex_TryLock(m *sync.Mutex) bool {
+	if vBool("trylock_succeeds") {
+		vLocksHeld++
+		return true
+	}
+	return false
+}
+func vStub_sync_RWMutex_TryLock(m *sync.RWMutex) bool {
+	if vBool("trylock_succeeds") {
+		vLocksHeld++
+		return true
+	}
+	return false
+}
+func vStub_sync_RWMutex_TryRLock(m *sync.RWMutex) bool {
+	if vBool("trylock_succeeds") {
+		vLocksHeld++
+		return true
+	}
+	return false
+}
